@@ -56,6 +56,10 @@ def scenarios(pid, tier):
             for lat, stop in ((-1, 0), (0, 0), (T, 0), (T + 1, 0), (0, 1), (1 if T > 1 else 0, 2)):
                 for traffic in ((), ((1, "text"), (I, "text"), (I + T, "ping"))):
                     out.append(scen(I=I, T=T, conns=[conn(ev=list(traffic), lat=lat, stop=stop)], userAt=H, horizon=H + 5))
+        # a peer that falls silent inside a frame, before or after having answered a ping
+        for I, T in ((3, 1), (5, 2)):
+            out.append(scen(I=I, T=T, conns=[conn(ev=[(I + 1, "partial")], lat=-1)], userAt=6 * I, horizon=6 * I + 5))
+            out.append(scen(I=I, T=T, conns=[conn(ev=[(2 * I + 1, "partial")], lat=0, stop=1)], userAt=7 * I, horizon=7 * I + 5))
         out.append(scen(I=2, T=0, conns=[conn(ev=[(9, "close")], lat=0)], horizon=30))
         out.append(scen(I=0, T=-1, conns=[conn(ev=[(1, "close")])], horizon=10))
     return out
@@ -65,12 +69,12 @@ def module(name, scs):
     return {name: "---- MODULE %s ----\nEXTENDS App\nScenariosV == {\n %s }\n====\n" % (name, ",\n ".join(tlc.tla(s) for s in scs))}
 
 
-def cfg(stamp="FALSE", cae="FALSE", torn="FALSE", invs=("MonitorOk", "CloseOnce", "SingleTransport", "TimeBounded", "NoStuck"), props=("Termination",)):
-    return ("SPECIFICATION Spec\nCONSTANTS\n Scenarios <- ScenariosV\n StampAlways = %s\n CloseAsError = %s\n CheckTorn = %s\n" % (stamp, cae, torn)
+def cfg(stamp="FALSE", cae="FALSE", torn="FALSE", blocking="FALSE", invs=("MonitorOk", "CloseOnce", "SingleTransport", "TimeBounded", "NoStuck"), props=("Termination",)):
+    return ("SPECIFICATION Spec\nCONSTANTS\n Scenarios <- ScenariosV\n StampAlways = %s\n CloseAsError = %s\n CheckTorn = %s\n BlockingRead = %s\n" % (stamp, cae, torn, blocking)
             + "".join("INVARIANT %s\n" % i for i in invs) + "".join("PROPERTY %s\n" % p for p in props))
 
 
-KIND = {"text": ["text", "t"], "ping": ["ping", []], "pong": ["pong", []], "close": ["close", 1000, [98]], "eof": ["eof"]}
+KIND = {"partial": ["partial", [129]], "text": ["text", "t"], "ping": ["ping", []], "pong": ["pong", []], "close": ["close", 1000, [98]], "eof": ["eof"]}
 
 
 def to_world(sc):
@@ -172,6 +176,11 @@ def model_check(ctx, pid):
         ctx.notes["model_sees_torn_check_race"] = r3.violated
         if "MonitorOk" not in r3.violated:
             ctx.machinery_error = "App.tla with CheckTorn does not violate the monitor: the model cannot see the check() race"
+        bug = [scen(I=3, T=1, conns=[conn(ev=[(4, "partial")], lat=-1)], userAt=18, horizon=25)]
+        r4 = tlc.run(name + "_blk", cfg(blocking="TRUE", props=()), "%s_appmc_blk" % pid.lower(), gen=module(name + "_blk", bug), timeout=600)
+        ctx.notes["model_sees_blocking_read_defect"] = r4.violated
+        if "MonitorOk" not in r4.violated:
+            ctx.machinery_error = "App.tla with BlockingRead does not violate the monitor: the model cannot see the mid-frame silence defect"
     if pid in ("C14", "C15"):
         bug = [scen(R=1 if pid == "C15" else 0, conns=[conn(ev=[(1, "close")]), conn(ev=[(1, "close")])], userAt=9, horizon=20)]
         r2 = tlc.run(name + "_bug", cfg(cae="TRUE", props=()), "%s_appmc_bug" % pid.lower(), gen=module(name + "_bug", bug), timeout=600)
